@@ -74,6 +74,9 @@ func c02Run(it c02Item) (ok bool, desc string, extra map[string]any) {
 	switch it.Wrapper {
 	case "plain":
 		res := eng.Run(in.Circuit(), in.Circuit(), opt)
+		if res.Outcome == eng.Accept && res.TolerantHints > 0 {
+			return false, fmt.Sprintf("%d shipped hint function(s) failed on the honest proof", res.TolerantHints), nil
+		}
 		return res.Outcome == eng.Accept, fmtRes(res), map[string]any{"hints": res.NHints, "native_checks": res.NCheck, "commits": res.NCommit}
 	case "fixed":
 		res := eng.Run(in.FixedTemplate(), in.FixedAssignment(), opt)
